@@ -264,7 +264,7 @@ func stepPlan(prop, tier string, want []string, cells []cellSpec, budget int) *P
 		"cache":         "empty cache in the pre-state for the step harness; cached-payload replay is examined by the Reset harness",
 		"solver_limits": "5 s primary (z3 5.1), 20 s fallbacks (cvc5, z3 4.8, cvc5 int-blasting); an undecided query makes the run inconclusive",
 	}
-	p.Outside = []string{"N other than 4 (thorough adds 1, 2, 3, 5, 7)", "views above 20", "proposals with more than one transaction (thorough: two)", "map iteration orders other than insertion order for cached payloads"}
+	p.Outside = []string{"N other than 4 for the one-step jobs (a single N=5 job takes 20 s instead of 3 s, N=7 did not finish in 50 min)", "views above 20", "proposals with more than two transactions", "recovery messages with more than one payload per category"}
 	return p
 }
 
@@ -523,7 +523,7 @@ func planC05(tier string) *Plan {
 	p.MustCover = []string{"C05.O2.decided", "event.processblock", "step.end", "C05.reset.end", "C05.O5.cached", "C05.reset.viewchanged"}
 	p.MustAssert = []string{"C05.O2.unchanged", "C05.O1.flag", "C05.O3.height", "C05.O3.validators", "C05.O3.subscription", "C05.O4.cache", "C05.O5.commit", "C05.O5.futurecached", "INV"}
 	p.Explanation = "Two harnesses on the real code. (1) One step from an arbitrary DECIDED Inv state (blockProcessed) for every API: state fingerprint unchanged, no ProcessBlock/ProcessPreBlock, no timer call, no broadcast except a RecoveryMessage answering a RecoveryRequest; from undecided states at most one successful ProcessBlock per call and the flag is set with it. (2) Reset/Start from an arbitrary Inv state with a symbolic future-message cache, the ledger height jumping by any amount, the validator count and the own index changing: afterwards height = ledger+1, previous hash, validator list, own index, block times are the callbacks' values, view 0 unless M cached change views were replayed, tables sized to the new count holding only payloads of the entered height, flags cleared unless a block was processed in this very call, no cache inbox at or below the entered height (except re-cached higher-view payloads of that height), an admissible cached Commit/ChangeView of the entered height sits in its table."
-	p.Bounds["reset"] = "validator counts (old,new) in {(4,4),(4,7),(7,4),(1,4),(4,1)} (quick: first two), cache <= 2 payloads"
+	p.Bounds["reset"] = "validator counts (old,new) in {(4,4),(4,7)} (thorough adds (1,4),(4,1)); cache 1 payload of each type, and 3 change views from distinct senders"
 	return p
 }
 
@@ -532,7 +532,8 @@ func resetJobs(tier string) []*Job {
 	type nn struct{ n, n2 int }
 	pairs := []nn{{4, 4}, {4, 7}}
 	if tier == "thorough" {
-		pairs = append(pairs, nn{7, 4}, nn{1, 4}, nn{4, 1})
+		// (an arbitrary Inv state at N=7 as the OLD state did not finish within the budget: outside the bound)
+		pairs = append(pairs, nn{1, 4}, nn{4, 1})
 	}
 	for _, pr := range pairs {
 		for _, start := range []int{0, 1} {
